@@ -84,6 +84,21 @@ def run(chk):
             eq_reqs.append(dict(family=fam, sign=sign, options=fine, fine=True))
     # continuity in the parameters: geometric sweeps of the end-gradient ratio through all branch switches
     delta = 0.004 if chk.tier == "quick" else 0.002
+    # option resolution: an unnormalised psi_* limit takes precedence over its psinorm_* partner and over nothing else (mixed use in one option set)
+    import analytic
+    import crit
+    for fam, sign in (("udn", 1), ("cdn", -1), ("lsn", 1)):
+        g_, h_ = crit.analytic_funcs(fam, float(sign))
+        cps = crit.find_all(g_, h_, (1.25, 1.75, -0.45, 0.45), n=10)
+        ax = min((p for p in cps if p[2] == "O"), key=lambda p: abs(p[1]))
+        pa_ = float(analytic.psi(fam, ax[0], ax[1], float(sign)))
+        px_ = min((float(analytic.psi(fam, p[0], p[1], float(sign))) for p in cps if p[2] == "X"), key=lambda v: abs(v - pa_))
+        unn = lambda nrm: pa_ + nrm * (px_ - pa_)
+        for mix in (dict(psi_sol=unn(1.12), psinorm_sol_inner=1.06), dict(psinorm_sol=1.12, psi_sol_inner=unn(1.06)), dict(psi_core=unn(0.85), psinorm_pf_lower=0.93),
+                    dict(psi_pf_lower=unn(0.93), psinorm_pf=0.9, psi_sol=unn(1.15))):
+            o = dict(base, nx_core=4, nx_sol=4, psi_spacing_separatrix_multiplier=1.0)
+            o.update(mix)
+            eq_reqs.append(dict(family=fam, sign=sign, options=o, mixed_limits=True))
     ratios = [0.3 * (1 + delta) ** k for k in range(int(math.log(6.0 / 0.3) / math.log(1 + delta)) + 1)]
     sweep_reqs = []
     for which in ("upper", "lower", "both"):
@@ -232,6 +247,19 @@ def run(chk):
             continue
         neq += 1
         limits = {"core": d["psi_core"], "sol": d["psi_sol"], "sol_inner": d["psi_sol_inner"], "pf_lower": d["psi_pf_lower"], "pf_upper": d["psi_pf_upper"]}
+        # the limits the options ask for, resolved here (psi_x given: that value; else psi_axis + psinorm_x * (psi_sep[0] - psi_axis); psinorm_sol_inner
+        # defaults to psinorm_sol, psinorm_pf_lower / _upper to psinorm_pf)
+        o_ = q["options"]
+        nrm = lambda v: d["psi_axis"] + v * (d["psi_sep"][0] - d["psi_axis"])
+        asked = {"core": o_["psi_core"] if o_.get("psi_core") is not None else nrm(o_["psinorm_core"]),
+                 "sol": o_["psi_sol"] if o_.get("psi_sol") is not None else nrm(o_["psinorm_sol"]),
+                 "sol_inner": o_["psi_sol_inner"] if o_.get("psi_sol_inner") is not None else nrm(o_.get("psinorm_sol_inner", o_["psinorm_sol"])),
+                 "pf_lower": o_["psi_pf_lower"] if o_.get("psi_pf_lower") is not None else nrm(o_.get("psinorm_pf_lower", o_["psinorm_pf"])),
+                 "pf_upper": o_["psi_pf_upper"] if o_.get("psi_pf_upper") is not None else nrm(o_.get("psinorm_pf_upper", o_["psinorm_pf"]))}
+        for k_, v_ in asked.items():
+            if abs(limits[k_] - v_) > 1e-12 * max(1.0, abs(v_)):
+                chk.fail(f"limits:option-resolution:{k_}", f"the radial limit psi_{k_} the equilibrium uses is not the one the options ask for",
+                         dict(where, used=limits[k_], asked=v_))
         for name, r in d["regions"].items():
             pv = [np.array(p) for p in r["psi_vals"]]
             allv = np.concatenate([pv[0]] + [p[1:] for p in pv[1:]])
